@@ -1,6 +1,6 @@
 /-
   Helper definitions for C11 (`checked_gamma_lr` / `checked_gamma_ur`, continued-fraction branch,
-  src/function/gamma.rs:326–367 and 211–250): the UNSCALED three-term recurrence the loop runs.
+  src/function/gamma.rs:323–364 and 211–250): the UNSCALED three-term recurrence the loop runs.
 
   State after `k` iterations:  `y = 1 − a + k`,  `z = x − a + 2 + 2k`,  `c = k`, and
       `A₀ = 1, A₁ = x + 1,  A_{k+2} = A_{k+1}·z_{k+1} − A_k·(y_{k+1}·(k+1))`
